@@ -129,3 +129,42 @@ class Recorder(Stateless):
     def set_params(self, **params):
         self._path = params.pop('path', self._path)
         super().set_params(**params)
+
+
+class Flaky(Stateless):
+    """Stateless actor whose first application (per instance) fails with a transient error."""
+
+    def __init__(self, label, szout=1, path=None, **params):
+        super().__init__(label, szout, **params)
+        self._path = path
+        self._fired = False
+
+    def apply(self, *xs):
+        if not self._fired:
+            self._fired = True
+            raise OSError('transient fault')
+        res = super().apply(*xs)
+        if self._path:
+            import os
+            fd = os.open(self._path, os.O_WRONLY | os.O_APPEND | os.O_CREAT, 0o644)
+            try:
+                os.write(fd, (json.dumps(res, sort_keys=True) + '\n').encode())
+            finally:
+                os.close(fd)
+        return res
+
+
+class FlakySource(Flaky):
+    def apply(self, *xs):
+        return super().apply()
+
+
+class EntrySource(Flaky):
+    """Head that stamps the request entry (an int) into its value: App(label; App(1000 + entry))."""
+
+    def __init__(self, label, szout=1, path=None, flaky=False, **params):
+        super().__init__(label, szout, path, **params)
+        self._fired = not flaky
+
+    def apply(self, entry=None):
+        return Flaky.apply(self, term('app', 1000 + int(entry or 0), par({}), NIL))
